@@ -410,6 +410,7 @@ def find_msg(case, name):
     return None
 
 
+OCC_CLASS = {}            # path -> position class of the occurrence (see occurrences)
 EMBED_BELOW_ROOT = set()   # paths of fields of an embedded message whose embedding message occurs below a root
 
 
@@ -419,16 +420,18 @@ def occurrences(case, roots, max_depth=6):
     out = []
     excluded = set(((case.get('yaml') or {}).get('excludeFields')) or [])
 
-    def walk(m, path, depth, via_embed=False):
+    def walk(m, path, depth, via_embed=False, parent='root'):
         if depth > max_depth:
             return
         for f in m['fields']:
             if f.get('embed'):
                 sub = find_msg(case, f['typeName'])
                 if sub and (m['name'] + '.' + f['name']) not in excluded and path not in excluded:
-                    walk(sub, path, depth + 1, True)
+                    walk(sub, path, depth + 1, True, parent)
                 continue
             out.append((path + '.' + f['name'], m['name'] + '.' + f['name'], f, m))
+            # position class of the occurrence: nesting depth (capped) x what it hangs under x embedded or not
+            OCC_CLASS[path + '.' + f['name']] = f"{min(path.count('.'), 2)}-{parent}{'-embed' if via_embed else ''}"
             if via_embed and '.' in path:
                 EMBED_BELOW_ROOT.add(path + '.' + f['name'])
             if (path + '.' + f['name']) in excluded or (m['name'] + '.' + f['name']) in excluded:
@@ -436,7 +439,7 @@ def occurrences(case, roots, max_depth=6):
             if f['type'] == 'message':
                 sub = find_msg(case, f['typeName'])
                 if sub:
-                    walk(sub, path + '.' + f['name'], depth + 1)
+                    walk(sub, path + '.' + f['name'], depth + 1, False, f['card'] + ('-oneof' if f.get('oneof', -1) >= 0 else ''))
     for r in roots:
         m = find_msg(case, r)
         if m:
@@ -691,7 +694,7 @@ def eval_c11(batches, tier, seed, known, info):
     out = {'evaluations': 0, 'violations': [], 'tie_breaks': [], 'distinct': [], 'samples': [], 'coverage': {}, 'known': {}}
     rnd = random.Random(seed + 11)
     nkey = {'path': 0, 'typeName': 0}
-    for b in batches[: (4 if tier == 'quick' else len(batches))]:
+    for bi, b in enumerate(batches[: (4 if tier == 'quick' else len(batches))]):
         if not b['static'] or b['static'].get('parseError') or b['case'].get('yamlState') != 'ok':
             continue
         base = run_variant(info, 'c11base', b['case'])
@@ -703,14 +706,21 @@ def eval_c11(batches, tier, seed, known, info):
             continue
         y = b['case']['yaml']
         excluded = set(y.get('excludeFields') or [])
-        for k in range(4 if tier == 'quick' else 12):
+        for k in range(8 if tier == 'quick' else 16):
             o = rnd.choice(occ)
             form = rnd.choice(['path', 'typeName'])
             deep = [x for x in occ if x[0] in EMBED_BELOW_ROOT]
-            if deep and k % 2 == 1:
+            if deep and k % 4 == 1:
                 # directed: a field of an embedded message in a nested occurrence, addressed by its full path
                 o, form = rnd.choice(deep), 'path'
                 nkey['embedded_below_root'] = nkey.get('embedded_below_root', 0) + 1
+            elif k % 2 == 0:
+                # directed: walk through the position classes (depth x single / repeated / map / oneof parent x embedded),
+                # one full-path key per class in turn
+                classes = sorted({OCC_CLASS.get(x[0], '?') for x in occ})
+                cls = classes[(k // 2 + bi) % len(classes)]
+                o, form = rnd.choice([x for x in occ if OCC_CLASS.get(x[0], '?') == cls]), 'path'
+                nkey['class:' + cls] = nkey.get('class:' + cls, 0) + 1
             key = o[0] if form == 'path' else o[1]
             if o[0] in excluded or o[1] in excluded:
                 continue
